@@ -210,6 +210,11 @@ pub fn run(lines: &[Value], opts: &FlowOpts, trace_path: &str) -> Summary {
         let spec = g.to_spec_messy(&map, &[], &mut rng);
         let sig = cycle_basis(&g.edges);
         let s = match build(&spec, sig, g.d) { BuildOut::Ok(s) => s, _ => { sm.count("build_not_ok"); continue; } };
+        if ngraphs % 2 == 0 {
+            let edf: EdgeData<f64> = (0..g.ne()).map(|e| (Some(if g.mass[e] { 1.0 } else { 0.0 }), vec![0.5; g.d])).collect();
+            let _ = s.sample_rng(&edf, &Settings::new(None, false, false), opts.seed ^ ngraphs as u64);
+            sm.count("graphs_warmed_up_through_rng");
+        }
         for r in 0..opts.runs_per_graph {
             let set = Settings::new(if rng.gen_bool(0.3) { Some(1e-6) } else { None }, r % 4 == 3, r % 4 != 2);
             let dim = s.dim();
@@ -227,7 +232,7 @@ pub fn run(lines: &[Value], opts: &FlowOpts, trace_path: &str) -> Summary {
             }
             // now and then Box-Muller coordinates next to the ends of (0,1)
             if r == 2 && dim > 2 * e - 1 {
-                for i in (2 * e - 1)..dim { if rng.gen_bool(0.5) { x[i] = [1.0 - 1e-9, 1.0 - f64::EPSILON / 2.0, 1e-300, f64::MIN_POSITIVE, 1e-12][rng.gen_range(0..5)]; } }
+                for i in (2 * e - 1)..dim { if rng.gen_bool(0.5) { x[i] = [1.0 - 1e-9, 1.0 - f64::EPSILON / 2.0, 1e-300, f64::MIN_POSITIVE, 1e-12, 0.0][rng.gen_range(0..6)]; } }
                 sm.count("runs_with_extreme_box_muller");
             }
             // now and then one xi so small that the running product kappa underflows to 0
